@@ -314,6 +314,14 @@ func ruleSetterMapping(c *Ctx, r *Report, rule string) {
 						tagFirst, whyTag = false, fmt.Sprintf("the tag table is consulted with %s instead of the unmodified key %s", l.Key, s.Key)
 					}
 					hit, known := p.Facts["hit:tagidx("+l.Key+")"]
+					if !known {
+						// a table whose entries are the fields themselves
+						for fk, fv := range p.Facts {
+							if strings.HasPrefix(fk, "hit:sf(") && strings.Contains(fk, "tagfield("+l.Key+")") {
+								hit, known = fv, true
+							}
+						}
+					}
 					if known && !hit {
 						sawTagMiss = true
 					}
@@ -348,7 +356,7 @@ func ruleSetterMapping(c *Ctx, r *Report, rule string) {
 	okTable := len(stores) > 0
 	bad := ""
 	for s := range stores {
-		if s != "bcltag(Field(i)) -> i" && s != "scan:bcltag(Field(i))" {
+		if s != "bcltag(Field(i)) -> i" && s != "scan:bcltag(Field(i))" && s != "bcltag(Field(i)) -> Field(i)" {
 			okTable = false
 			bad = s
 		}
